@@ -115,20 +115,116 @@ func blameSites(c *Ctx, fn *ssa.Function) []blameSite {
 			elems = append(elems, paramFields(fn, call.Call.Args[1])...)
 		}
 		sort.Strings(elems)
-		// controlling branch: nearest dominating If
-		g := ""
-		for d := call.Block(); d != nil; d = d.Idom() {
-			if len(d.Preds) != 1 {
-				continue
-			}
-			p := d.Preds[0]
-			if iff, ok := p.Instrs[len(p.Instrs)-1].(*ssa.If); ok {
-				g = deciderOf(iff.Cond) + "(" + strings.Join(paramFields(fn, iff.Cond), ",") + ")"
-				break
-			}
+		// controlling branches: every test (inside the same loop iteration) one of whose edges leads to this append while
+		// the other can bypass it. The set does not depend on whether the culprit is appended at one place behind several
+		// tests or once behind each test.
+		for _, g := range controllingConds(fn, call.Block()) {
+			out = append(out, blameSite{fn, g, strings.Join(elems, "+"), call.Pos()})
 		}
-		out = append(out, blameSite{fn, g, strings.Join(elems, "+"), call.Pos()})
 	})
+	// one entry per (culprit, condition): the union over all append sites of that culprit
+	seenKey := map[string]bool{}
+	var uniq []blameSite
+	for _, b := range out {
+		k := b.guard + " => " + b.culprit
+		if !seenKey[k] {
+			seenKey[k] = true
+			uniq = append(uniq, b)
+		}
+	}
+	return uniq
+}
+
+// controllingConds: keys of the branch conditions that control block a (see blameSites).
+func controllingConds(fn *ssa.Function, a *ssa.BasicBlock) []string {
+	// header of the innermost loop around a: the nearest dominator that a reaches again
+	var hdr *ssa.BasicBlock
+	for d := a.Idom(); d != nil; d = d.Idom() {
+		if blockReaches(a, d) {
+			hdr = d // keep climbing: every block of a loop reaches every other one, the header is the topmost of them
+		}
+	}
+	reach := func(from *ssa.BasicBlock, p *ssa.BasicBlock) bool {
+		seen := map[*ssa.BasicBlock]bool{p: true}
+		if hdr != nil {
+			seen[hdr] = true
+		}
+		var walk func(b *ssa.BasicBlock) bool
+		walk = func(b *ssa.BasicBlock) bool {
+			if b == a {
+				return true
+			}
+			if seen[b] {
+				return false
+			}
+			seen[b] = true
+			for _, s := range b.Succs {
+				if walk(s) {
+					return true
+				}
+			}
+			return false
+		}
+		return walk(from)
+	}
+	var out []string
+	for _, p := range fn.Blocks {
+		if p == hdr || len(p.Instrs) == 0 {
+			continue
+		}
+		iff, ok := p.Instrs[len(p.Instrs)-1].(*ssa.If)
+		if !ok {
+			continue
+		}
+		// only tests of the same iteration: p lies between the loop header and a
+		if hdr != nil && !(hdr.Dominates(p) && blockReaches(p, a)) {
+			continue
+		}
+		if hdr == nil && !blockReaches(p, a) {
+			continue
+		}
+		// control dependence: along one edge the append is unavoidable, along the other it can be bypassed
+		avoid := func(from *ssa.BasicBlock) bool {
+			seen := map[*ssa.BasicBlock]bool{a: true}
+			var walk func(b *ssa.BasicBlock) bool
+			walk = func(b *ssa.BasicBlock) bool {
+				if seen[b] {
+					return false
+				}
+				if b == hdr || len(b.Succs) == 0 {
+					return true // next iteration / function exit reached without passing the append
+				}
+				seen[b] = true
+				for _, s := range b.Succs {
+					if walk(s) {
+						return true
+					}
+				}
+				return false
+			}
+			return walk(from)
+		}
+		must0 := reach(p.Succs[0], p) && !avoid(p.Succs[0])
+		must1 := reach(p.Succs[1], p) && !avoid(p.Succs[1])
+		if !((must0 && avoid(p.Succs[1])) || (must1 && avoid(p.Succs[0]))) {
+			continue
+		}
+		kind, atoms := flattenBool(iff.Cond, 0)
+		if kind == "" || len(atoms) < 2 {
+			atoms = []ssa.Value{iff.Cond}
+		}
+		for _, at := range atoms {
+			d := deciderOf(at)
+			if strings.HasPrefix(d, "phi") || d == "value" {
+				continue // loop conditions (a counter against a bound, the ok flag of a range): not checks on anybody's data
+			}
+			out = append(out, d+"("+strings.Join(guardFields(fn, at), ",")+")")
+		}
+	}
+	if len(out) == 0 {
+		out = []string{""}
+	}
+	sort.Strings(out)
 	return out
 }
 
